@@ -24,7 +24,7 @@ impl Prop for C06 {
         "C06"
     }
     fn rule_text(&self) -> String {
-        "case = 1-3 one-shot keys (all end variants; payload key / output chord / layer-while-held) + 2 plain keys + 1 custom-action key (mouse button / message / unicode) on 2 layers, T in {1,2,10,100}, rapid-event-delay in {0,1,5}; structured schedules with gaps from {0,1,2,T-1,T,T+1,...}: expire (exact tick), next-key (press / release variants), held, stacked, re-press (pcancel vs restart), overflow (17-20 stacked one-shots). non-trivial = the one-shot payload went down; distinct = config x schedule hash.".into()
+        "case = 1-3 one-shot keys (all end variants; payload key / output chord / layer-while-held) + 2 plain keys + 1 custom-action key (mouse button / message / unicode) on 2 layers, T in {1,2,10,100}, rapid-event-delay in {0,1,5}; structured schedules with gaps from {0,1,2,T-1,T,T+1,...}: expire (exact tick), next-key (press / release variants), held, stacked, re-press (pcancel vs restart; pcancel: also the older of two combined one-shots pressed again), overflow (17-20 stacked one-shots). non-trivial = the one-shot payload went down; distinct = config x schedule hash.".into()
     }
     fn runs(&self, tier: Tier) -> u64 {
         match tier {
@@ -283,6 +283,30 @@ impl Prop for C06 {
                         ops.push(Op::Release(b));
                         case.set("stack_key", 1);
                     }
+                    ops.push(Op::Gap(settle + t as u32));
+                }
+                _ if is_pcancel(v) && payload == "key" && r.chance(400) => {
+                    // two combined pcancel one-shots, then the OLDER one is pressed again: any
+                    // active one-shot key pressed again ends the whole combination
+                    let (first, second) = if r.chance(500) { (a, a2) } else { (a2, a) };
+                    // (every event in a millisecond of its own with the queue drained, so that the
+                    // activation tick of each payload is its arrival + 1)
+                    ops.push(Op::Press(first));
+                    ops.push(Op::Gap(2));
+                    ops.push(Op::Release(first));
+                    ops.push(Op::Gap(r.range(2, 3) as u32));
+                    ops.push(Op::Press(second));
+                    ops.push(Op::Gap(2));
+                    ops.push(Op::Release(second));
+                    ops.push(Op::Gap(r.range(2, 3) as u32));
+                    case.set("repress_stacked_at", ops.len());
+                    ops.push(Op::Press(first));
+                    ops.push(Op::Gap(2));
+                    ops.push(Op::Release(first));
+                    ops.push(Op::Gap((red + 6) as u32));
+                    ops.push(Op::Press(b));
+                    ops.push(Op::Gap(3));
+                    ops.push(Op::Release(b));
                     ops.push(Op::Gap(settle + t as u32));
                 }
                 _ => {
@@ -550,6 +574,34 @@ impl Prop for C06 {
                             if rel_alt != Some(want) || last_m_release != Some(want) {
                                 o.set_fail("C06:stacked-timeout-not-restarted", format!("second one-shot at {t_d}, T={t}: both payloads expected to expire in tick {want}; LShift {last_m_release:?} LAlt {rel_alt:?}: {}", outs_short(&outs)), vec![]);
                             }
+                        }
+                    }
+                }
+            }
+            "repress" if case.param("repress_stacked_at").is_some() => {
+                if !o.failed() {
+                    let at = case.param_u64("repress_stacked_at").unwrap_or(0) as usize;
+                    let mut tm = 0u64;
+                    for op in &case.ops[..at.min(case.ops.len())] {
+                        if let Op::Gap(n) = op {
+                            tm += *n as u64;
+                        }
+                    }
+                    o.count("pop.repress-older-of-two-combined", 1);
+                    // T >= 10 here, the re-press comes <= 10 ms after the first tap
+                    let bound = tm + 1 + red + 4;
+                    let rel_of = |k: &str| outs.iter().filter(|e| e.key == k && e.kind == OutKind::Release).map(|e| e.t).last();
+                    for k in ["LShift", "LAlt"] {
+                        if rel_of(k).map(|x| x > bound).unwrap_or(true) {
+                            o.set_fail("C06:pcancel-did-not-end-on-repress", format!("variant {v}: two one-shots combined, the older one pressed again at {tm}: payload {k} released at {:?} (> {bound}): {}", rel_of(k), outs_short(&outs)), vec![]);
+                        }
+                    }
+                    // the key typed afterwards is plain
+                    if let Some(e) = plain_outs.first() {
+                        let pi = outs.iter().position(|x| std::ptr::eq(x, *e)).unwrap_or(0);
+                        let st_of = |k: &str| outs[..pi].iter().rev().find(|x| x.key == k).map(|x| x.kind == OutKind::Press).unwrap_or(false);
+                        if (st_of("LShift") || st_of("LAlt")) && !o.failed() {
+                            o.set_fail("C06:later-key-still-modified", format!("variant {v}: the key typed after the cancelling re-press came out modified: {}", outs_short(&outs)), vec![]);
                         }
                     }
                 }
